@@ -1081,11 +1081,15 @@ def find_replace(
         # which the match starts: its first line is already in place, the others follow that line.
         line_start = source.rfind("\n", 0, range_start) + 1
         matched_first_line = source[line_start:range_end].split("\n", 1)[0]
-        indentation = formatting.indentation_level(matched_first_line)
+        # The indentation is copied as it is written (a tab stays a tab): the same width in blanks
+        # under a tab-indented line is inconsistent indentation to python.
+        indentation = ""
+        if matched_first_line.strip():
+            indentation = matched_first_line[: len(matched_first_line) - len(matched_first_line.lstrip(" \t"))]
 
         template_replacement = textwrap.dedent(template_replacement)
         first_line, newline, other_lines = template_replacement.partition("\n")
-        other_lines = textwrap.indent(other_lines, " " * indentation)
+        other_lines = textwrap.indent(other_lines, indentation)
         template_replacement = first_line + newline + other_lines
 
         item = [replacement_range, template_replacement]
